@@ -17,6 +17,10 @@ func c04Key(t *rapid.T) string {
 }
 
 func c04Field(t *rapid.T) string {
+	if rapid.IntRange(0, 40).Draw(t, "aligned") == 0 {
+		// names of 8 / 16 bytes that differ in one bit of a block's first byte (table hash block handling)
+		return pick(t, "al", "0abcdefg", "8abcdefg", "0abcdefgABCDEFGH", "8abcdefgABCDEFGH", "abcdefgh", "abcdefgH")
+	}
 	if rapid.IntRange(0, 3).Draw(t, "hot") > 0 {
 		return "f" + strconv.Itoa(rapid.IntRange(0, 5).Draw(t, "hotf"))
 	}
@@ -110,10 +114,39 @@ func c04Step(t *rapid.T) kit.Argv {
 	}
 }
 
+// c04Sparse: a handful of fields from a wide name space (hash collisions make the one-item-per-bucket
+// table 32, 64 ... buckets wide), add/remove cycles that drive the table's removal counter to its shrink
+// threshold, then reads and deletes that run while the table is rehashed.
+func c04Sparse(t *rapid.T) []kit.Argv {
+	name := func() string { return "w" + strconv.Itoa(rapid.IntRange(0, 199).Draw(t, "w")) }
+	k := pick(t, "sk", "h1", "h2")
+	a := []string{"HSET", k}
+	var fields []string
+	for i := rapid.IntRange(2, 9).Draw(t, "nf"); i > 0; i-- {
+		f := name()
+		fields = append(fields, f)
+		a = append(a, f, "v"+f)
+	}
+	out := []kit.Argv{kit.A("DEL", k), kit.A(a...)}
+	for i := rapid.IntRange(0, 20).Draw(t, "cycles"); i > 0; i-- {
+		out = append(out, kit.A("HSET", k, "churn", "1"), kit.A("HDEL", k, "churn"))
+	}
+	for i := rapid.IntRange(1, 4).Draw(t, "after"); i > 0; i-- {
+		out = append(out, kit.A(pick(t, "sparseop", []string{"HGETALL", k}, []string{"HDEL", k, pick(t, "df", fields...), pick(t, "df2", fields...)}, []string{"HLEN", k},
+			[]string{"HKEYS", k}, []string{"HRANDFIELD", k, "-5", "WITHVALUES"}, []string{"HRANDFIELD", k, "20"}, []string{"HSET", k, name(), "x"}, []string{"HMGET", k, fields[0], "nosuch"},
+			[]string{"COPY", k, "hcopy", "REPLACE"}, []string{"HGETALL", "hcopy"})...))
+	}
+	return out
+}
+
 func c04Gen(t *rapid.T) SeqCase {
 	steps := []kit.Argv{kit.A("SET", "str", "v"), kit.A("RPUSH", "lst", "x")}
 	n := rapid.IntRange(8, 45).Draw(t, "steps")
 	for i := 0; i < n; i++ {
+		if rapid.IntRange(0, 39).Draw(t, "sparse") == 0 {
+			steps = append(steps, c04Sparse(t)...)
+			continue
+		}
 		steps = append(steps, c04Step(t))
 	}
 	return SeqCase{Steps: steps}
